@@ -395,6 +395,37 @@ def exNoiseHyps (F : Facts) (defsText queryText : List Char) (pre block : List N
 example : exNoiseHyps exFacts exDefs "select distinct k from t limit 5".toList (strBytes "a;1\n") (strBytes "zzz\r\nzzz\n") = true := by
   decide +kernel
 
+/-- … from which the hypotheses of `same_rows_same_output` follow for the files with and without the block
+(`insert_noise_block`): equally covered, the same lines once the noise is removed -/
+example : ∃ t, queriedTable exFacts exDefs "select distinct k from t limit 5".toList = some t ∧
+    filesCovered exFacts t.defn [strBytes "a;1\n" ++ strBytes "zzz\r\nzzz\n" ++ strBytes "b;2"] =
+      filesCovered exFacts t.defn [strBytes "a;1\n" ++ strBytes "b;2"] ∧
+    ([strBytes "a;1\n" ++ strBytes "zzz\r\nzzz\n" ++ strBytes "b;2"].map (fileOf (extractedLine exFacts t.defn))).map denoise =
+      ([strBytes "a;1\n" ++ strBytes "b;2"].map (fileOf (extractedLine exFacts t.defn))).map denoise := by
+  have h : exNoiseHyps exFacts exDefs "select distinct k from t limit 5".toList (strBytes "a;1\n") (strBytes "zzz\r\nzzz\n") = true := by
+    decide +kernel
+  unfold exNoiseHyps at h
+  split at h
+  · rename_i t ht
+    simp only [Bool.and_eq_true, decide_eq_true_eq, List.all_eq_true] at h
+    obtain ⟨⟨hpre, hblock⟩, hall⟩ := h
+    have hn : ∀ item ∈ Reader.lines (strBytes "zzz\r\nzzz\n"), ∃ l, item = .ok l ∧ noRow exFacts t.defn l = true := by
+      intro item hi
+      have := hall item hi
+      cases item with
+      | ok l => exact ⟨l, rfl, this⟩
+      | error u => cases this
+    obtain ⟨h1, h2⟩ := insert_noise_block exFacts t.defn _ _ (strBytes "b;2") hpre hblock hn
+    exact ⟨t, ht, by simp only [filesCovered, List.all_cons, List.all_nil, Bool.and_true, h1],
+      by simp only [List.map_cons, List.map_nil, h2]⟩
+  · cases h
+
+/-- the hypotheses of `noise_line_invisible` for the line `zzz` with a CR LF end: no `\n` inside, valid UTF-8 with its
+newline, and the line the reader yields (`zzz`, the `\r` removed) yields no row -/
+example : nl ∉ strBytes "zzz\r" ∧ validUtf8 (strBytes "zzz\r" ++ [nl]) = true ∧
+    ((queriedTable exFacts exDefs "select k from t".toList).map (fun t => noRow exFacts t.defn (stripCr (strBytes "zzz\r")))) = some true := by
+  decide +kernel
+
 /-- … and the output with and without the block is the same; the line counter is not (4 lines read against 2) -/
 example :
     recordsOf (runText exFacts exDefs "select distinct k from t limit 5".toList .text false [strBytes "a;1\nzzz\r\nzzz\nb;2"]) =
@@ -451,6 +482,29 @@ example : Except.error () ∈ [[97, 59, 49, 10, 195, 10, 98, 59, 50, 10]].flatMa
   simp
 example : recordsOf (runText exFacts exDefs "select count(*) from t".toList .text false [strBytes "a;1\n" ++ [195, 10] ++ strBytes "b;2\n"]) =
     some (some .failReadFile, 1, []) := by decide +kernel
+/-- `QueryNoLimit` holds for `select count(*) from t` and for `select k from t`; `QueryIsSelect` for the latter -/
+example : QueryNoLimit exFacts "select count(*) from t".toList := by
+  intro query stmt f j hq hs
+  have := exQueryShape_sound exFacts _ (fun st => match st with | .select s => s.limit.isNone | .aggregate _ => true)
+    (by decide +kernel) query stmt f j hq hs
+  cases stmt with
+  | select s => simp only [Option.isNone_iff_eq_none] at this; exact this
+  | aggregate a => trivial
+example : QueryNoLimit exFacts "select k from t".toList ∧ QueryIsSelect exFacts "select k from t".toList := by
+  constructor
+  · intro query stmt f j hq hs
+    have := exQueryShape_sound exFacts _ (fun st => match st with | .select s => s.limit.isNone | .aggregate _ => true)
+      (by decide +kernel) query stmt f j hq hs
+    cases stmt with
+    | select s => simp only [Option.isNone_iff_eq_none] at this; exact this
+    | aggregate a => trivial
+  · intro query stmt f j hq hs
+    have := exQueryShape_sound exFacts _ (fun st => match st with | .select _ => true | .aggregate _ => false)
+      (by decide +kernel) query stmt f j hq hs
+    cases stmt with
+    | select s => exact ⟨s, rfl⟩
+    | aggregate a => cases this
+
 /-- hypothesis of `lines_before_invalid_line_are_processed`: the lines of the files are the lines of the cut-off input,
 the invalid line, and the rest; its case (c): the same record, the same count, `Ok` against `FailReadFile` -/
 example : [[97, 59, 49, 10, 195, 10, 98, 59, 50, 10]].flatMap Reader.lines =
@@ -491,8 +545,22 @@ def exPermHyps (F : Facts) (defsText queryText : List Char) (files₁ files₂ :
 example : exPermHyps exFacts exDefs "select k, count(*), max(v), sum(v) from t group by k".toList
     [strBytes "a;1\nb;2\nzzz\n", strBytes "a;1\n"] [strBytes "a;1\r\nzzz\n", strBytes "a;1\nb;2"] = true := by decide +kernel
 
-/-- … whose answers are the same table (`PermSafe` for INT arguments of small magnitude: `Props/C15.lean`
-`permSafe_of_small_ints`) -/
+/-- … the hypothesis `hsafe` of `line_order_irrelevant` on that invocation: the admitted rows of the first input pass the
+check, hence are `PermSafe` -/
+def exPermSafe (F : Facts) (defsText queryText : List Char) (files₁ : List (List Nat)) : Bool :=
+  match parseText (lexOracles F) (regexValidFn F) defsText, parseText (lexOracles F) (regexValidFn F) queryText with
+  | .stmt defs, .stmt (.aggregate a fromTable _ none) =>
+    match (addTables defs).bind (fun tables => prepare F tables (.aggregate a) fromTable none files₁) with
+    | some p₁ => (match keyedRows F.eval a (envsOf p₁.qy.table p₁.files.flatten) with
+      | some keyed => permSafeB F.eval a keyed
+      | none => false)
+    | none => false
+  | _, _ => false
+
+example : exPermSafe exFacts exDefs "select k, count(*), max(v), sum(v) from t group by k".toList
+    [strBytes "a;1\nb;2\nzzz\n", strBytes "a;1\n"] = true := by decide +kernel
+
+/-- … whose answers are the same table -/
 example :
     recordsOf (runText exFacts exDefs "select k, count(*), max(v), sum(v) from t group by k".toList .text false [strBytes "a;1\nb;2\nzzz\n", strBytes "a;1\n"]) =
     recordsOf (runText exFacts exDefs "select k, count(*), max(v), sum(v) from t group by k".toList .text false [strBytes "a;1\r\nzzz\n", strBytes "a;1\nb;2"]) := by
